@@ -758,6 +758,45 @@ package fzf
 //@ loop 1
 //@   invariant len(masked) + len(action) == old(len(action))
 
+// The argument cursor of parseOptions: the helpers that fetch an option's value never step outside the argument
+// vector, consume at most the one argument they return (none when the value came attached as --opt=value, held in
+// `val`), and always clear `val`.
+//@ func parseOptions closure @"return allArgs[i], nil"
+//@ property C17
+//@ requires 0 <= i && i < len(allArgs)
+//@ modifies i, val
+//@ ensures 0 <= i && i < len(allArgs) && val == nil
+//@ ensures r1 == nil && old(val) != nil ==> i == old(i) && samestr(r0, *old(val))
+//@ ensures r1 == nil && old(val) == nil ==> i == old(i) + 1 && samestr(r0, allArgs[i])
+//@ ensures r1 != nil ==> i == old(i) && old(val) == nil && old(i) + 1 >= len(allArgs)
+//@ func parseOptions closure @"return true, allArgs[i]"
+//@ property C17
+//@ requires 0 <= i && i < len(allArgs)
+//@ modifies i, val
+//@ ensures 0 <= i && i < len(allArgs) && val == nil && (i == old(i) || i == old(i) + 1)
+//@ ensures old(val) != nil ==> r0 && i == old(i) && samestr(r1, *old(val))
+//@ ensures old(val) == nil && r0 ==> i == old(i) + 1 && samestr(r1, allArgs[i])
+//@ ensures !r0 ==> i == old(i) && len(r1) == 0
+
+//@ func parseOptions closure @"if isDir(arg) {"
+//@ property C17
+//@ requires 0 <= i && i < len(allArgs)
+//@ modifies i, val
+//@ ensures 0 <= i && i < len(allArgs) && val == nil && i >= old(i)
+//@ ensures (r1 == nil) == (r0 != nil) && (r1 == nil ==> len(r0) >= 1 && len(r0) >= i - old(i))
+//@ loop 1
+//@   invariant old(i) <= i && i < len(allArgs) && fresh(dirs) && len(dirs) >= i - old(i)
+//@ func isDir trusted
+
+// --history-size: only a positive size is accepted, and it reaches a history that has already been loaded
+// (the options may come in either order).
+//@ func parseOptions closure @"history max must be a positive integer"
+//@ property C17 C18
+//@ requires opts != nil
+//@ modifies historyMax, opts.History.maxSize
+//@ ensures historyMax == max && (result == nil) == (max >= 1)
+//@ ensures result == nil && opts.History != nil ==> opts.History.maxSize == max
+
 //@ func parseTmuxOptions
 //@ property C17
 //@ ensures (r0 == nil) == (r1 != nil)
